@@ -3,17 +3,67 @@ C19 part 3 -- grid descriptors of molli.descriptor.gridbased against float64 def
 
 Every call of the real functions made here is followed by its oracle; nearest_atom_index is additionally wrapped in its
 module so that the calls made internally by atomic_indicator_field (aeif) are checked with their realistic arguments.
+
+Beyond single calls on fresh objects (round 0 of every case):
+* every case goes on with the SAME objects: the ensemble (and the single geometries) are edited through the public API
+  (coords / weights / atomic_charges setters, translate, rotate, scale, in-place edit of the coords array, an element
+  change) and every descriptor is evaluated again on the same grid object; then a second grid of the same shape and dtype
+  (shifted copy, reversed copy, jittered copy, or the same array shifted in place by the caller) is evaluated with the
+  unchanged ensemble.  References are always computed from copies of the values the objects held just before the call.
+* the calls are made in the documented argument forms: required positional + optional by keyword, everything positional in
+  the documented order (SIGNATURES, the signatures at HEAD), everything by keyword.
+* after every call all arguments (grid, ensemble coordinates / weights / charges, geometry coordinates) must still hold
+  the values they had before it.
+* run_desc_large: grids of 2**15 .. 2**17+ points with conformers in opposite corners of the box, ensembles of 129 .. 300 atoms.
+* run_desc_threads: several threads evaluate aso / aeif / atomic_indicator_field / prune / nearest_atom_index at the same
+  time on different ensembles of equal shape and one grid; every result must equal the serial result of the same call
+  (which is itself judged against the definition).
 """
 from __future__ import annotations
 
 import hashlib
 import math
+import sys
+import threading
 
 import numpy as np
 
 BAND = 1e-4          # float32 rounding band (Angstrom) excluded around sphere surfaces, cut-offs and nearest-atom ties
 ELEMENTS = ["H", "C", "N", "O", "F", "P", "S", "Cl", "Br", "I", "Si", "B"]
 MAXDISTS = [None, 0.5, 1.0, 2.0, 3.5, 6.0]
+
+# documented parameter order and defaults (molli/descriptor/gridbased.py at HEAD): required parameters, optional ones
+SIGNATURES = {
+    "rectangular_grid": (("r1", "r2"), (("padding", 0.0), ("spacing", 1.0), ("dtype", "float32"))),
+    "nearest_atom_index": (("grid", "struct_or_ens"), (("max_dist", 2.0),)),
+    "prune": (("grid", "struct_or_ens"), (("max_dist", 2.0), ("eps", 0.5))),
+    "atomic_indicator_field": (("ens", "grid", "indicator_values", "atomic_radii"), (("nearest_atom_idx", None), ("weighted", False))),
+    "aeif": (("ens", "grid"), (("nearest_atom_idx", None), ("weighted", False))),
+    "aso": (("ens", "grid"), (("weighted", False),)),
+}
+
+
+def argument_form(rng, name, required, given):
+    """(form, args, kwargs) for one call of gridbased.<name>: `required` values in order, `given` = {optional name: value}"""
+    req_names, opt = SIGNATURES[name]
+    assert len(required) == len(req_names) and all(k in dict(opt) for k in given)
+    u = rng.random()
+    if u < 0.45:
+        return "keyword", list(required), dict(given)
+    if u < 0.85:
+        args = list(required)
+        last = max((i for i, (k, _) in enumerate(opt) if k in given), default=-1)
+        for k, default in opt[:last + 1]:
+            args.append(given[k] if k in given else default)
+        return ("positional" if last >= 0 else "keyword"), args, {}
+    kw = dict(zip(req_names, required))
+    kw.update(given)
+    return "all-keyword", [], kw
+
+
+def vkey(head, tags, tail):
+    """violation key: operation[:variant] [:state of the objects / argument form] :what"""
+    return ":".join([head, *[t for t in tags if t], tail])
 
 
 # ------------------------------------------------------------------------------------------------------ generators
@@ -39,18 +89,21 @@ def rotation(rng):
     return q
 
 
-def gen_ensemble(rng):
+def gen_ensemble(rng, n=None, nc=None, base=None):
     import molli as ml
     from molli.chem import Atom, Molecule, ConformerEnsemble
 
-    n = int(rng.choice([1, 2, 3, 5, 8, 12, 17, 24]))
-    nc = int(rng.choice([1, 2, 3, 5]))
-    if rng.random() < 0.12:
-        # large ensembles (conformer searches return hundreds): sizes around powers of two, where batching would show
-        nc = int(rng.choice([31, 33, 63, 64, 65, 100, 127, 129, 200, 257]))
-        n = min(n, 8)
+    if n is None:
+        n = int(rng.choice([1, 2, 3, 5, 8, 12, 17, 24]))
+        ncc = int(rng.choice([1, 2, 3, 5]))
+        if rng.random() < 0.12:
+            # large ensembles (conformer searches return hundreds): sizes around powers of two, where batching would show
+            ncc = int(rng.choice([31, 33, 63, 64, 65, 100, 127, 129, 200, 257]))
+            n = min(n, 8)
+        nc = ncc if nc is None else nc
     els = [str(rng.choice(ELEMENTS)) for _ in range(n)]
-    base = gen_coords(rng, n)
+    if base is None:
+        base = gen_coords(rng, n)
     confs = []
     for k in range(nc):
         if k == 0:
@@ -224,7 +277,7 @@ def nearest_violations(D, res, d):
     return out, dmin
 
 
-def check_nearest(ctx, case, kind, grid, coords_list, res, d, det, count=True):
+def check_nearest(ctx, case, kind, grid, coords_list, res, d, det, count=True, tags=()):
     """kind: 'geometry' (coords_list has one entry, res (G,)) or 'ensemble' (res (nc,G))"""
     G = grid.shape[0]
     res = np.asarray(res)
@@ -232,7 +285,7 @@ def check_nearest(ctx, case, kind, grid, coords_list, res, d, det, count=True):
     if count:
         ctx.count(f"nearest.{kind}.checked")
     if res.shape != want_shape or res.dtype.kind not in "iu":
-        ctx.violation(f"nearest_atom_index:{kind}:result-shape-or-dtype-wrong", case=case, got=[list(res.shape), str(res.dtype)],
+        ctx.violation(vkey(f"nearest_atom_index:{kind}", tags, "result-shape-or-dtype-wrong"), case=case, got=[list(res.shape), str(res.dtype)],
                       want=list(want_shape), **det)
         return
     rows = [res] if kind == "geometry" else list(res)
@@ -242,6 +295,8 @@ def check_nearest(ctx, case, kind, grid, coords_list, res, d, det, count=True):
         ctx.count("nearest.points.within-cutoff", int((dmin < d - BAND).sum()))
         ctx.count("nearest.points.beyond-cutoff", int((dmin > d + BAND).sum()))
         ctx.count("nearest.points.in-band-not-decided", int((np.abs(dmin - d) <= BAND).sum()))
+        if D.shape[1] > 128:
+            ctx.count("nearest.points.naming-an-atom-index-above-127", int((np.asarray(row) > 127).sum()))
         nbad = {k: int(m.sum()) for k, m in masks.items() if m.any()}
         if not nbad:
             continue
@@ -254,7 +309,7 @@ def check_nearest(ctx, case, kind, grid, coords_list, res, d, det, count=True):
                 return
         for k, n in nbad.items():
             g = int(np.argwhere(masks[k])[0][0])
-            ctx.violation(f"nearest_atom_index:{kind}:{k}", case=case, max_dist=d, conformer=ci, n_points=n, of=G, point=grid[g].tolist(),
+            ctx.violation(vkey(f"nearest_atom_index:{kind}", tags, k), case=case, max_dist=d, conformer=ci, n_points=n, of=G, point=grid[g].tolist(),
                           returned=int(row[g]), nearest=int(D[g].argmin()), nearest_distance=float(dmin[g]),
                           returned_distance=float(D[g, row[g]]) if 0 <= row[g] < D.shape[1] else None, **det)
         return
@@ -262,12 +317,12 @@ def check_nearest(ctx, case, kind, grid, coords_list, res, d, det, count=True):
 
 # ------------------------------------------------------------------------------------------------------ prune / aso / aeif
 
-def check_prune(ctx, case, grid, allcoords, kept, d, eps, det):
+def check_prune(ctx, case, grid, allcoords, kept, d, eps, det, tags=()):
     ctx.count("prune.checked")
     G = grid.shape[0]
     kept = np.asarray(kept)
     if kept.ndim != 1 or (kept.size and (kept.dtype.kind not in "iu" or kept.min() < 0 or kept.max() >= G)):
-        ctx.violation("prune:result-not-an-index-array-into-the-grid", case=case, got=[list(kept.shape), str(kept.dtype)], **det)
+        ctx.violation(vkey("prune", tags, "result-not-an-index-array-into-the-grid"), case=case, got=[list(kept.shape), str(kept.dtype)], **det)
         return
     dmin = dist_matrix(grid, allcoords).min(1)
     keptmask = np.zeros(G, bool)
@@ -279,11 +334,11 @@ def check_prune(ctx, case, grid, allcoords, kept, d, eps, det):
     ctx.count("prune.points.dropped-between-cutoffs", int((~keptmask & (dmin <= d)).sum()))
     if far.any():
         g = int(np.argwhere(far)[0][0])
-        ctx.violation("prune:kept-point-beyond-cutoff", case=case, n_points=int(far.sum()), of=G, point=grid[g].tolist(),
+        ctx.violation(vkey("prune", tags, "kept-point-beyond-cutoff"), case=case, n_points=int(far.sum()), of=G, point=grid[g].tolist(),
                       distance=float(dmin[g]), max_dist=d, eps=eps, **det)
     if near.any():
         g = int(np.argwhere(near)[0][0])
-        ctx.violation("prune:dropped-point-closer-than-cutoff-over-1-plus-eps", case=case, n_points=int(near.sum()), of=G,
+        ctx.violation(vkey("prune", tags, "dropped-point-closer-than-cutoff-over-1-plus-eps"), case=case, n_points=int(near.sum()), of=G,
                       point=grid[g].tolist(), distance=float(dmin[g]), max_dist=d, eps=eps, **det)
 
 
@@ -310,84 +365,353 @@ def field_reference(grid, coords, radii, weights, charges=None):
     return (per * w[:, None]).sum(0) / w.sum(), undec, occ_any
 
 
-def check_field(ctx, case, name, weighted, obs, ref, undec, occ_any, det, scale=1.0):
+def check_field(ctx, case, name, weighted, obs, ref, undec, occ_any, det, scale=1.0, tags=()):
     tag = f"{name}:{'weighted' if weighted else 'unweighted'}"
     ctx.count(f"{name}.checked")
     ctx.count(f"{name}.{'weighted' if weighted else 'unweighted'}.checked")
     obs = np.asarray(obs)
     if obs.shape != ref.shape:
-        ctx.violation(f"{tag}:result-shape-wrong", case=case, got=list(obs.shape), want=list(ref.shape), **det)
+        ctx.violation(vkey(tag, tags, "result-shape-wrong"), case=case, got=list(obs.shape), want=list(ref.shape), **det)
         return
     cmp = ~undec
     ctx.count(f"{name}.points.compared", int(cmp.sum()))
     ctx.count(f"{name}.points.excluded-rounding-band", int(undec.sum()))
     ctx.count(f"{name}.points.occupied", int((occ_any & cmp).sum()))
+    if obs.shape[0] > 32768:          # occupied, decided points in the last sixteenth of a large grid (a forgotten tail block)
+        ctx.count(f"{name}.large-grid.occupied-points-in-last-sixteenth", int((occ_any & cmp)[-(obs.shape[0] // 16):].sum()))
+        ctx.count(f"{name}.large-grid.occupied-points-in-first-sixteenth", int((occ_any & cmp)[:obs.shape[0] // 16].sum()))
     err = np.abs(obs.astype(np.float64) - ref)
     bad = cmp & ~(err <= 1e-6 * scale)
     if bad.any():
         g = int(np.argwhere(bad)[0][0])
-        what = "differs-from-occupancy-average" if name == "aso" else "differs-from-nearest-atom-charge-average"
-        ctx.violation(f"{tag}:{what}", case=case, n_points=int(bad.sum()), of=int(cmp.sum()), grid_index=g, got=float(obs[g]),
+        what = {"aso": "differs-from-occupancy-average", "aeif": "differs-from-nearest-atom-charge-average"}.get(
+            name, "differs-from-nearest-atom-indicator-average")
+        ctx.violation(vkey(tag, tags, what), case=case, n_points=int(bad.sum()), of=int(cmp.sum()), grid_index=g, got=float(obs[g]),
                       want=float(ref[g]), **det)
 
 
 # ------------------------------------------------------------------------------------------------------ the chunk
 
-def run_desc(spec, ctx):
-    import molli as ml
-    import molli_xt  # noqa: F401
-    from molli.chem import CartesianGeometry, Structure
-    from molli.descriptor import gridbased as gb
-    from vmon.props.C19 import deployed_binary, repo_root, sha256_file
+def install_monitor(ctx, gb, ml, state):
+    """monitor on the real nearest_atom_index: the calls atomic_indicator_field makes internally are judged too.
+    Arguments are passed through as they come, so the argument form of a direct call reaches the real function."""
+    real_nearest = gb.nearest_atom_index
 
+    def monitored_nearest(*args, **kw):
+        res = real_nearest(*args, **kw)
+        if state["inside"] and state["case"] is not None:
+            try:
+                b = dict(zip(("grid", "struct_or_ens", "max_dist"), args))
+                b.update(kw)
+                grid, struct_or_ens, max_dist = b["grid"], b["struct_or_ens"], b.get("max_dist", 2.0)
+                if isinstance(struct_or_ens, ml.ConformerEnsemble):
+                    cl, kind = list(np.array(struct_or_ens.coords, dtype=np.float64)), "ensemble"
+                else:
+                    cl, kind = [np.array(struct_or_ens.coords, dtype=np.float64)], "geometry"
+                ctx.count("nearest.internal-calls-monitored")
+                check_nearest(ctx, state["case"], kind, np.asarray(grid), cl, res, float(max_dist),
+                              {"via": "atomic_indicator_field"}, count=False, tags=state.get("tags", ()))
+            except Exception:  # the monitor must never disturb the code under test
+                ctx.count("nearest.internal-monitor-errors")
+        return res
+
+    gb.nearest_atom_index = monitored_nearest
+    return real_nearest
+
+
+def part3_note(ctx, gb):
+    from vmon.props.C19 import deployed_binary, repo_root, sha256_file
     ctx.note("part3_descriptors", {
         "python_sources_sha256": {str(p): sha256_file(p) for p in
                                   (repo_root() / "molli" / "descriptor" / "gridbased.py", repo_root() / "molli" / "math" / "distance.py")},
         "imported_from": str(gb.__file__), "binary": deployed_binary(),
         "exercises": "gridbased.py of the working tree on top of the deployed extension module"})
 
-    # ---- monitor on the real nearest_atom_index: internal calls (atomic_indicator_field) are checked too
-    real_nearest = gb.nearest_atom_index
-    state = {"case": None, "inside": 0}
 
-    def monitored_nearest(grid, struct_or_ens, max_dist=2.0):
-        res = real_nearest(grid, struct_or_ens, max_dist=max_dist)
-        if state["inside"] and state["case"] is not None:
-            try:
-                if isinstance(struct_or_ens, ml.ConformerEnsemble):
-                    cl, kind = list(np.asarray(struct_or_ens.coords, dtype=np.float64)), "ensemble"
-                else:
-                    cl, kind = [np.asarray(struct_or_ens.coords, dtype=np.float64)], "geometry"
-                ctx.count("nearest.internal-calls-monitored")
-                check_nearest(ctx, state["case"], kind, np.asarray(grid), cl, res, float(max_dist),
-                              {"via": "atomic_indicator_field"}, count=False)
-            except Exception:  # the monitor must never disturb the code under test
-                ctx.count("nearest.internal-monitor-errors")
-        return res
+def run_desc(spec, ctx):
+    import molli as ml
+    import molli_xt  # noqa: F401
+    from molli.descriptor import gridbased as gb
 
-    gb.nearest_atom_index = monitored_nearest
+    part3_note(ctx, gb)
+    state = {"case": None, "inside": 0, "tags": ()}
+    real_nearest = install_monitor(ctx, gb, ml, state)
     try:
         grid_only_cases(spec, ctx, gb)
         for j in range(spec["n"]):
             case = ["d", spec["chunk"], j]
             if ctx.want(case):
                 state["case"] = case
-                one_case(spec, ctx, case, gb, ml, CartesianGeometry, Structure, state)
+                one_case(spec, ctx, case, gb, ml, state)
     finally:
         gb.nearest_atom_index = real_nearest
 
 
-def one_case(spec, ctx, case, gb, ml, CartesianGeometry, Structure, state):
+# ---- the objects of one case and what they held before a call
+
+def snapshot(st):
+    """copies of the values the objects hold now: every reference is computed from these, every call is followed by a
+    comparison of the live arrays with them"""
+    ens = st["ens"]
+    st["raw"] = {"ensemble-coordinates": np.array(ens.coords, copy=True), "ensemble-weights": np.array(ens.weights, copy=True),
+                 "ensemble-atomic-charges": np.array(ens.atomic_charges, copy=True)}
+    st["coords"] = st["raw"]["ensemble-coordinates"].astype(np.float64)
+    st["weights"] = st["raw"]["ensemble-weights"].astype(np.float64)
+    st["charges"] = st["raw"]["ensemble-atomic-charges"].astype(np.float64)
+    st["radii"] = np.array([a.vdw_radius for a in ens.atoms], dtype=np.float64)
+    st["grid0"] = np.array(st["grid"], copy=True)
+    st["geoms0"] = [np.array(g.coords, copy=True) for _, g in st["geoms"]]
+
+
+def same_array(now, before):
+    now = np.asarray(now)
+    return now.dtype == before.dtype and now.shape == before.shape and bool(np.array_equal(now, before))
+
+
+def inputs_intact(ctx, case, op, st, det, extra=()):
+    """after a call: grid, ensemble arrays and geometry coordinates still hold what they held before it"""
+    ens = st["ens"]
+    ctx.count("descriptor.arguments-compared-after-call")
+    live = [("grid", st["grid"], st["grid0"])]
+    live += [(k, getattr(ens, a), st["raw"][k]) for k, a in (("ensemble-coordinates", "coords"), ("ensemble-weights", "weights"),
+                                                               ("ensemble-atomic-charges", "atomic_charges"))]
+    live += [("geometry-coordinates", g.coords, g0) for (_, g), g0 in zip(st["geoms"], st["geoms0"])]
+    live += list(extra)
+    for what, now, before in live:
+        if same_array(now, before):
+            continue
+        now = np.asarray(now)
+        chg = int((now != before).sum()) if now.shape == before.shape else None
+        ctx.violation(f"{op}:modifies-argument:{what}", case=case, changed_elements=chg, shape_before=list(before.shape),
+                      shape_after=list(now.shape), dtype_before=str(before.dtype), dtype_after=str(now.dtype), **det)
+        try:        # put the values back so that the following calls are judged on what the caller passed
+            if now.shape == before.shape and now.flags.writeable:
+                now[...] = before
+        except Exception:  # noqa
+            pass
+
+
+def call(ctx, case, rng, gb, st, det, label, name, required, given, tags=()):
+    """one call of gridbased.<name> in a documented argument form -> (ok, result, tags incl. the form)"""
+    form, args, kw = argument_form(rng, name, required, given)
+    ctx.count(f"descriptor.calls.{form}")
+    if form != "keyword":
+        ctx.count(f"descriptor.calls.{form}.{name}")
+    ftags = tuple(tags) + (("positional-call",) if form == "positional" else ())
+    try:
+        res = getattr(gb, name)(*args, **kw)
+    except Exception as e:  # noqa
+        ctx.violation(vkey(label, ftags, f"raises:{type(e).__name__}"), case=case, err=repr(e)[:300], argument_form=form, **det)
+        inputs_intact(ctx, case, name, st, det)
+        return False, None, ftags
+    inputs_intact(ctx, case, name, st, det)
+    return True, res, ftags
+
+
+def float64_nearest_table(grid, coords, radii):
+    nc, G = coords.shape[0], grid.shape[0]
+    near = np.empty((nc, G), dtype=np.int64)
+    for c in range(nc):
+        D = dist_matrix(grid, coords[c])
+        near[c] = np.where(D.min(1) <= radii.max(), D.argmin(1), -1)
+    return near
+
+
+def evaluate(ctx, case, rng, gb, st, det, state, level, tags=()):
+    """all descriptors on the objects of `st` as they are now; level: 'full' | 'repeat' | 'large'"""
+    ens, grid, geoms = st["ens"], st["grid"], st["geoms"]
+    coords, weights, charges, radii = st["coords"], st["weights"], st["charges"], st["radii"]
+    nc, G = coords.shape[0], grid.shape[0]
+    state["tags"] = tuple(tags)
+    det = {**det, **({"state": "+".join(tags)} if tags else {})}
+
+    # ---- nearest_atom_index: single geometries of several public types, then the ensemble
+    dists = MAXDISTS if level == "full" else [None, float(rng.choice(MAXDISTS[1:]))]
+    for d in dists:
+        kw = {} if d is None else {"max_dist": d}
+        dd = 2.0 if d is None else d
+        gi = int(rng.integers(len(geoms))) if d is not None else 0
+        tname, gm = geoms[gi]
+        gcoords = st["geoms0"][gi].astype(np.float64)
+        ok, res, ft = call(ctx, case, rng, gb, st, det, "nearest_atom_index:geometry", "nearest_atom_index", [grid, gm], kw, tags)
+        if ok:
+            check_nearest(ctx, case, "geometry", st["grid0"], [gcoords], res, dd, {**det, "type": tname, "max_dist_given": d is not None}, tags=ft)
+        ok, res, ft = call(ctx, case, rng, gb, st, det, "nearest_atom_index:ensemble", "nearest_atom_index", [grid, ens], kw, tags)
+        if ok:
+            check_nearest(ctx, case, "ensemble", st["grid0"], list(coords), res, dd, {**det, "max_dist_given": d is not None}, tags=ft)
+
+    # ---- prune
+    settings = [(float(rng.choice([0.8, 1.5, 3.0])), float(rng.choice([0.0, 0.25, 1.0])))]
+    if level == "full" or rng.random() < 0.5:
+        settings.insert(0, (2.0, 0.5))
+    for d, eps in settings:
+        default = d == 2.0 and eps == 0.5
+        kw = {} if default else ({"max_dist": d, "eps": eps} if rng.random() < 0.7 or d == 2.0 else {"max_dist": d})
+        if "eps" not in kw:
+            eps = 0.5
+        ok, kept, ft = call(ctx, case, rng, gb, st, det, "prune:ensemble", "prune", [grid, ens], kw, tags)
+        if ok:
+            check_prune(ctx, case, st["grid0"], coords.reshape(-1, 3), kept, d, eps, {**det, "target": "ensemble"}, tags=ft)
+        ok, kept, ft = call(ctx, case, rng, gb, st, det, "prune:geometry", "prune", [grid, geoms[0][1]], kw, tags)
+        if ok:
+            check_prune(ctx, case, st["grid0"], st["geoms0"][0].astype(np.float64), kept, d, eps, {**det, "target": geoms[0][0]}, tags=ft)
+
+    # ---- aso / aeif / atomic_indicator_field
+    qscale = max(1.0, float(np.abs(charges).max()))
+
+    def variants():
+        ran = False
+        # aeif with a caller-supplied nearest-atom table (float64 argmin, -1 beyond the largest radius)
+        if level != "large" and rng.random() < 0.5:
+            ran = True
+            near = float64_nearest_table(st["grid0"], coords, radii)
+            near0 = near.copy()
+            ref, undec, occ = field_reference(st["grid0"], coords, radii, weights, charges)
+            ok, obs, ft = call(ctx, case, rng, gb, st, det, "aeif", "aeif", [ens, grid], {"nearest_atom_idx": near, "weighted": True}, tags)
+            if not same_array(near, near0):
+                ctx.violation("aeif:modifies-argument:nearest-atom-table", case=case, **det)
+            if ok:
+                ctx.count("aeif.with-supplied-nearest-table")
+                check_field(ctx, case, "aeif", True, obs, ref, undec, occ, {**det, "nearest_atom_idx": "supplied"}, scale=qscale, tags=ft)
+        # atomic_indicator_field itself with the caller's own per-atom values and radii
+        if level != "large" and rng.random() < 0.6:
+            ran = True
+            vals = rng.uniform(-2, 2, size=charges.shape)
+            rad = rng.uniform(0.9, 2.6, size=radii.shape)
+            vals0, rad0 = vals.copy(), rad.copy()
+            weighted = bool(rng.random() < 0.5)
+            kw = {"weighted": True} if weighted else {}
+            ref, undec, occ = field_reference(st["grid0"], coords, rad, weights if weighted else None, vals)
+            ok, obs, ft = call(ctx, case, rng, gb, st, det, "atomic_indicator_field", "atomic_indicator_field", [ens, grid, vals, rad], kw, tags)
+            if not (same_array(vals, vals0) and same_array(rad, rad0)):
+                ctx.violation("atomic_indicator_field:modifies-argument:indicator-values-or-radii", case=case, **det)
+            if ok:
+                check_field(ctx, case, "atomic_indicator_field", weighted, obs, ref, undec, occ, {**det, "radii": "caller-supplied"},
+                            scale=2.0, tags=ft)
+        return ran
+
+    def plain():
+        for weighted in (False, True):
+            w = weights if weighted else None
+            kw = {"weighted": True} if weighted else ({} if rng.random() < 0.5 else {"weighted": False})
+            ref, undec, occ = field_reference(st["grid0"], coords, radii, w)
+            ok, obs, ft = call(ctx, case, rng, gb, st, det, "aso", "aso", [ens, grid], kw, tags)
+            if ok:
+                check_field(ctx, case, "aso", weighted, obs, ref, undec, occ, det, tags=ft)
+            ref, undec, occ = field_reference(st["grid0"], coords, radii, w, charges)
+            state["tags"] = tuple(tags)
+            ok, obs, ft = call(ctx, case, rng, gb, st, det, "aeif", "aeif", [ens, grid], kw, tags)
+            if ok:
+                check_field(ctx, case, "aeif", weighted, obs, ref, undec, occ, det, scale=qscale, tags=ft)
+
+    state["inside"] = 1
+    try:
+        # the plain calls are the last ones of round 0 and the first ones after the caller's edit: what a cache holds on to
+        # when the objects change is then asked for again at once (the variants use other radii / tables in between)
+        if tags:
+            plain()
+        if variants() or not tags:
+            plain()
+    finally:
+        state["inside"] = 0
+
+
+# ---- caller-side edits between the rounds (public API only)
+
+def edit_ensemble(rng, ml, st):
+    """edit the ensemble and the single geometries in place; returns the names of the edits"""
+    ens = st["ens"]
+    nc, n = ens.coords.shape[:2]
+    done = []
+    kinds = ["coords-setter", "translate", "rotate-about-centroid", "scale", "coords-array-edited-in-place"]
+    for kind in rng.choice(kinds, size=int(rng.integers(1, 3)), replace=False):
+        kind = str(kind)
+        if kind == "coords-setter":
+            new = np.array(ens.coords, dtype=np.float64) + rng.normal(scale=rng.uniform(0.3, 1.2), size=ens.coords.shape)
+            ens.coords = new if rng.random() < 0.5 else new.tolist()
+        elif kind == "translate":
+            ens.translate(rng.uniform(-1.5, 1.5, size=3) if rng.random() < 0.5 else rng.uniform(-1.5, 1.5, size=(nc, 3)))
+        elif kind == "rotate-about-centroid":
+            cen = np.array(ens.coords, dtype=np.float64).reshape(-1, 3).mean(0)
+            ens.translate(-cen)
+            ens.rotate(rotation(rng))
+            ens.translate(cen + rng.normal(scale=0.3, size=3))
+        elif kind == "scale":
+            cen = np.array(ens.coords, dtype=np.float64).reshape(-1, 3).mean(0)
+            ens.translate(-cen)
+            ens.scale(float(rng.uniform(0.75, 1.3)))
+            ens.translate(cen)
+        else:
+            k = int(rng.integers(nc))
+            ens.coords[k] += rng.normal(scale=0.8, size=(n, 3))
+        done.append(kind)
+    if rng.random() < 0.6:
+        w = rng.uniform(0.05, 1.0, size=nc)
+        if nc >= 3 and rng.random() < 0.3:
+            w[int(rng.integers(nc))] = 0.0
+        ens.weights = w
+        done.append("weights-setter")
+    if rng.random() < 0.6:
+        ens.atomic_charges = rng.uniform(-1, 1, size=(nc, n))
+        done.append("atomic-charges-setter")
+    if rng.random() < 0.3:
+        i = int(rng.integers(n))
+        ens.atoms[i].element = str(rng.choice(ELEMENTS))
+        done.append("element-of-one-atom")
+    for tname, g in st["geoms"]:
+        if tname == "Conformer":
+            continue                        # a view of the ensemble: follows it
+        u = rng.random()
+        if u < 0.4:
+            g.translate(rng.uniform(-1.5, 1.5, size=3))
+        elif u < 0.8:
+            g.coords = np.array(g.coords, dtype=np.float64) + rng.normal(scale=0.7, size=np.shape(g.coords))
+        else:
+            g.coords[int(rng.integers(n))] += rng.normal(scale=1.0, size=3)
+    return done
+
+
+def second_grid(rng, st, spacing):
+    """a second grid of the same shape and dtype; returns the name of the variant"""
+    grid = st["grid"]
+    shift = rng.uniform(-0.5, 0.5, size=3) * spacing
+    shift[int(rng.integers(3))] = 0.37 * spacing
+    u = rng.random()
+    if u < 0.35:
+        st["grid"] = (grid + shift.astype(grid.dtype)).astype(grid.dtype)
+        return "shifted-copy"
+    if u < 0.6:
+        grid += shift.astype(grid.dtype)                    # the caller moves its own array
+        return "same-array-shifted-in-place-by-the-caller"
+    if u < 0.8:
+        st["grid"] = np.ascontiguousarray(grid[::-1]) + shift.astype(grid.dtype) * 0.5
+        st["grid"] = st["grid"].astype(grid.dtype)
+        return "reversed-and-shifted-copy"
+    st["grid"] = (grid + rng.uniform(-0.3, 0.3, size=grid.shape) * spacing).astype(grid.dtype)
+    return "jittered-copy"
+
+
+def make_geoms(rng, ml, mol, ens):
+    from molli.chem import CartesianGeometry, Structure
+    k = int(rng.integers(ens.n_conformers))
+    geoms = [("Molecule", ml.Molecule(mol)), ("Conformer", ens[k])]
+    try:
+        geoms.append(("CartesianGeometry", CartesianGeometry(mol)))
+        geoms.append(("Structure", Structure(mol)))
+    except Exception:
+        pass
+    return geoms
+
+
+def one_case(spec, ctx, case, gb, ml, state):
     rng = ctx.nprng(*case)
     _DCACHE.clear()
     mol, ens, els = gen_ensemble(rng)
-    coords = np.asarray(ens.coords, dtype=np.float64)          # the values the objects hold
+    coords = np.array(ens.coords, dtype=np.float64)          # the values the objects hold
     nc, n = coords.shape[:2]
     if nc > 16:
         ctx.count("descriptor.large-ensembles")
     radii = np.array([a.vdw_radius for a in ens.atoms], dtype=np.float64)
-    weights = np.asarray(ens.weights, dtype=np.float64)
-    charges = np.asarray(ens.atomic_charges, dtype=np.float64)
     padding = float(rng.choice([0.0, 0.5, 1.5, 2.5]))
     spacing = float(rng.choice([0.5, 0.7, 1.0, 1.3, float(rng.uniform(0.45, 2.0))]))
     dtype = "float64" if rng.random() < 0.2 else "float32"
@@ -396,13 +720,9 @@ def one_case(spec, ctx, case, gb, ml, CartesianGeometry, Structure, state):
     if vol / spacing ** 3 > 12000:
         spacing = float((vol / 12000) ** (1 / 3)) + 0.05
     det = {"atoms": n, "conformers": nc, "elements": "".join(els)[:40], "padding": padding, "spacing": round(spacing, 4), "grid_dtype": dtype}
-    try:
-        grid = gb.rectangular_grid(lo, hi, padding=padding, spacing=spacing, dtype=dtype)
-    except Exception as e:  # noqa
-        ctx.case(case, nontrivial=False)
-        ctx.violation(f"rectangular_grid:raises:{type(e).__name__}", case=case, err=repr(e)[:300], **det)
+    grid = make_grid(ctx, case, rng, gb, lo, hi, padding, spacing, dtype, det)
+    if grid is None:
         return
-    check_grid(ctx, case, lo, hi, padding, spacing, dtype, grid)
     # hand-placed points: on atoms, on sphere surfaces (fall into the excluded band), midway between two atoms (tie band)
     extra = [coords[0, 0], coords[-1, -1], coords[0, 0] + np.array([radii[0], 0, 0]), coords[0, 0] + np.array([0, 0, 2.0])]
     if n > 1:
@@ -411,74 +731,320 @@ def one_case(spec, ctx, case, gb, ml, CartesianGeometry, Structure, state):
     G = grid.shape[0]
     det["grid_points"] = G
 
-    ref_aso_u, undec_aso, occ_any = field_reference(grid, coords, radii, None)
+    _, _, occ_any = field_reference(grid, coords, radii, None)
     ctx.case(case, dkey=("d", dhash(coords, grid[:3]), G, padding, spacing, dtype),
              nontrivial=G >= 8 and bool(occ_any.any()) and not bool(occ_any.all()),
-             sample={"part": 3, **det, "weights": weights.round(3).tolist(), "occupied_points": int(occ_any.sum())})
+             sample={"part": 3, **det, "weights": np.asarray(ens.weights, dtype=float).round(3).tolist(), "occupied_points": int(occ_any.sum())})
 
-    def guarded(label, fn):
-        try:
-            return True, fn()
-        except Exception as e:  # noqa
-            ctx.violation(f"{label}:raises:{type(e).__name__}", case=case, err=repr(e)[:300], **det)
-            return False, None
+    st = {"ens": ens, "grid": grid, "geoms": make_geoms(rng, ml, mol, ens)}
+    snapshot(st)
+    evaluate(ctx, case, rng, gb, st, det, state, "full")
 
-    # ---- nearest_atom_index: single geometries of several public types, then the ensemble
-    k = int(rng.integers(nc))
-    geoms = [("Molecule", ml.Molecule(mol)), ("Conformer", ens[k])]
+    # ---- the same objects after caller-side edits: same grid object, then a second grid of the same shape
+    edits = edit_ensemble(rng, ml, st)
+    _DCACHE.clear()
+    snapshot(st)
+    ctx.count("descriptor.repeat.after-ensemble-edit")
+    for e in edits:
+        ctx.count(f"descriptor.repeat.edit.{e}")
+    evaluate(ctx, case, rng, gb, st, {**det, "edits": edits}, state, "repeat", tags=("after-ensemble-edit",))
+
+    variant = second_grid(rng, st, spacing)
+    _DCACHE.clear()
+    snapshot(st)
+    ctx.count("descriptor.repeat.second-grid-of-same-shape")
+    ctx.count(f"descriptor.repeat.grid.{variant}")
+    evaluate(ctx, case, rng, gb, st, {**det, "second_grid": variant}, state, "repeat", tags=("second-grid-of-same-shape",))
+    _DCACHE.clear()
+
+
+def make_grid(ctx, case, rng, gb, lo, hi, padding, spacing, dtype, det):
+    """rectangular_grid in one of the documented argument forms, judged; None if it raised"""
+    given = {"padding": padding, "spacing": spacing, "dtype": dtype}
+    if dtype == "float32" and rng.random() < 0.5:
+        del given["dtype"]
+    if padding == 0.0 and rng.random() < 0.5:
+        del given["padding"]
+    form, args, kw = argument_form(rng, "rectangular_grid", [lo, hi], given)
+    lo0, hi0 = lo.copy(), hi.copy()
+    ctx.count(f"descriptor.calls.{form}")
+    if form != "keyword":
+        ctx.count(f"descriptor.calls.{form}.rectangular_grid")
     try:
-        geoms.append(("CartesianGeometry", CartesianGeometry(mol)))
-        geoms.append(("Structure", Structure(mol)))
-    except Exception:
-        pass
-    for d in MAXDISTS:
-        kw = {} if d is None else {"max_dist": d}
-        dd = 2.0 if d is None else d
-        tname, gm = geoms[int(rng.integers(len(geoms)))] if d is not None else geoms[0]
-        gcoords = np.asarray(gm.coords, dtype=np.float64)
-        ok, res = guarded("nearest_atom_index:geometry", lambda: gb.nearest_atom_index(grid, gm, **kw))
-        if ok:
-            check_nearest(ctx, case, "geometry", grid, [gcoords], res, dd, {**det, "type": tname, "max_dist_given": d is not None})
-        ok, res = guarded("nearest_atom_index:ensemble", lambda: gb.nearest_atom_index(grid, ens, **kw))
-        if ok:
-            check_nearest(ctx, case, "ensemble", grid, list(coords), res, dd, {**det, "max_dist_given": d is not None})
+        grid = gb.rectangular_grid(*args, **kw)
+    except Exception as e:  # noqa
+        ctx.case(case, nontrivial=False)
+        ctx.violation(f"rectangular_grid:raises:{type(e).__name__}", case=case, err=repr(e)[:300], argument_form=form, **det)
+        return None
+    if not (same_array(lo, lo0) and same_array(hi, hi0)):
+        ctx.violation("rectangular_grid:modifies-argument:corner", case=case, **det)
+        lo[...], hi[...] = lo0, hi0
+    check_grid(ctx, case, lo, hi, padding, spacing, dtype, grid)
+    return grid
 
-    # ---- prune
-    for d, eps in [(2.0, 0.5), (float(rng.choice([0.8, 1.5, 3.0])), float(rng.choice([0.0, 0.25, 1.0])))]:
-        default = d == 2.0 and eps == 0.5
-        kw = {} if default else {"max_dist": d, "eps": eps}
-        ok, kept = guarded("prune:ensemble", lambda: gb.prune(grid, ens, **kw))
-        if ok:
-            check_prune(ctx, case, grid, coords.reshape(-1, 3), kept, d, eps, {**det, "target": "ensemble"})
-        ok, kept = guarded("prune:geometry", lambda: gb.prune(grid, geoms[0][1], **kw))
-        if ok:
-            check_prune(ctx, case, grid, np.asarray(geoms[0][1].coords, dtype=np.float64), kept, d, eps, {**det, "target": "molecule"})
 
-    # ---- aso / aeif, unweighted and weighted
-    state["inside"] = 1
+# ------------------------------------------------------------------------------------------------------ large inputs
+
+LARGE_GRID_COUNTS = [(33, 33, 34), (41, 41, 41), (52, 51, 50)]      # 37026, 68921, 132600 points: above 2**15, 2**16, 2**17
+MANY_ATOMS = [(129, 150), (250, 262), (290, 310)]
+
+
+def run_desc_large(spec, ctx):
+    import molli as ml
+    import molli_xt  # noqa: F401
+    from molli.descriptor import gridbased as gb
+
+    part3_note(ctx, gb)
+    state = {"case": None, "inside": 0, "tags": ()}
+    real_nearest = install_monitor(ctx, gb, ml, state)
     try:
-        qscale = max(1.0, float(np.abs(charges).max()))
-        for weighted in (False, True):
-            w = weights if weighted else None
-            kw = {"weighted": True} if weighted else ({} if rng.random() < 0.5 else {"weighted": False})
-            ref, undec, occ = field_reference(grid, coords, radii, w)
-            ok, obs = guarded("aso", lambda: gb.aso(ens, grid, **kw))
-            if ok:
-                check_field(ctx, case, "aso", weighted, obs, ref, undec, occ, det)
-            ref, undec, occ = field_reference(grid, coords, radii, w, charges)
-            ok, obs = guarded("aeif", lambda: gb.aeif(ens, grid, **kw))
-            if ok:
-                check_field(ctx, case, "aeif", weighted, obs, ref, undec, occ, det, scale=qscale)
-        # aeif with a caller-supplied nearest-atom table (float64 argmin, -1 beyond the largest radius)
-        if rng.random() < 0.5:
-            near = np.empty((nc, G), dtype=np.int64)
-            for c in range(nc):
-                D = dist_matrix(grid, coords[c])
-                near[c] = np.where(D.min(1) <= radii.max(), D.argmin(1), -1)
-            ref, undec, occ = field_reference(grid, coords, radii, weights, charges)
-            ok, obs = guarded("aeif", lambda: gb.aeif(ens, grid, nearest_atom_idx=near, weighted=True))
-            if ok:
-                ctx.count("aeif.with-supplied-nearest-table")
-                check_field(ctx, case, "aeif", True, obs, ref, undec, occ, {**det, "nearest_atom_idx": "supplied"}, scale=qscale)
+        for j in range(spec["n"]):
+            case = ["L", spec["variant"], spec["chunk"], j]
+            if not ctx.want(case):
+                continue
+            state["case"] = case
+            rng = ctx.nprng(*case)
+            _DCACHE.clear()
+            if spec["variant"] == "grid":
+                large_grid_case(spec, ctx, case, rng, gb, ml, state)
+            else:
+                many_atoms_case(spec, ctx, case, rng, gb, ml, state)
+            _DCACHE.clear()
     finally:
-        state["inside"] = 0
+        gb.nearest_atom_index = real_nearest
+
+
+def large_grid_case(spec, ctx, case, rng, gb, ml, state):
+    """a small ensemble whose conformers sit in opposite corners of (and inside) a box sampled by 2**15 .. 2**17+ points"""
+    counts = np.array(LARGE_GRID_COUNTS[(spec["chunk"] + case[-1]) % len(LARGE_GRID_COUNTS)])
+    counts = counts[rng.permutation(3)]
+    spacing = float(rng.choice([0.5, 0.6, 0.75]))
+    ext = (counts - 1) * spacing + rng.uniform(0.05, 0.9, size=3) * spacing
+    lo = rng.uniform(-12, 12, size=3)
+    hi = lo + ext
+    n, nc = int(rng.integers(3, 11)), int(rng.integers(2, 5))
+    base = gen_coords(rng, n)
+    base = base - base.mean(0)
+    base *= min(1.0, 4.0 / max(1e-9, float(np.abs(base).max())))       # fits into a corner of the box
+    confs = []
+    for k in range(nc):
+        c = base @ rotation(rng).T
+        r = np.abs(c).max(0) + 1.0
+        if k == 0:
+            cen = lo + r
+        elif k == 1:
+            cen = hi - r
+        else:
+            cen = lo + r + rng.random(3) * (ext - 2 * r)
+        confs.append(c + cen)
+    mol, ens, els = gen_ensemble(rng, n=n, nc=nc, base=confs[0])
+    ens.coords = np.array(confs)
+    dtype = "float64" if rng.random() < 0.25 else "float32"
+    det = {"atoms": n, "conformers": nc, "elements": "".join(els)[:40], "padding": 0.0, "spacing": spacing, "grid_dtype": dtype}
+    grid = make_grid(ctx, case, rng, gb, lo, hi, 0.0, spacing, dtype, det)
+    if grid is None:
+        return
+    G = grid.shape[0]
+    det["grid_points"] = G
+    for bound in (32768, 65536, 131072):
+        if G > bound:
+            ctx.count(f"descriptor.large-grid.above-{bound}-points")
+    st = {"ens": ens, "grid": grid, "geoms": make_geoms(rng, ml, mol, ens)}
+    snapshot(st)
+    _, _, occ_any = field_reference(st["grid0"], st["coords"], st["radii"], None)
+    ctx.case(case, dkey=("L", dhash(st["coords"], grid[:3]), G, spacing, dtype), nontrivial=bool(occ_any.any()) and not bool(occ_any.all()),
+             sample={"part": 3, "large": "grid", **det, "occupied_points": int(occ_any.sum())})
+    evaluate(ctx, case, rng, gb, st, det, state, "large")
+    # the second call on the same objects after an edit, as in the ordinary cases
+    edits = edit_ensemble(rng, ml, st)
+    _DCACHE.clear()
+    snapshot(st)
+    ctx.count("descriptor.repeat.after-ensemble-edit")
+    evaluate(ctx, case, rng, gb, st, {**det, "edits": edits}, state, "large", tags=("after-ensemble-edit",))
+
+
+def many_atoms_case(spec, ctx, case, rng, gb, ml, state):
+    """catalyst-sized and larger molecules: atom indices beyond 127 / 255"""
+    a, b = MANY_ATOMS[(spec["chunk"] + case[-1]) % len(MANY_ATOMS)]
+    n, nc = int(rng.integers(a, b + 1)), int(rng.integers(1, 4))
+    side = (n * 14.0) ** (1 / 3)                                     # about one atom per 14 A^3
+    base = rng.uniform(0, side, size=(n, 3)) + rng.uniform(-10, 10, size=3)
+    mol, ens, els = gen_ensemble(rng, n=n, nc=nc, base=base)
+    coords = np.array(ens.coords, dtype=np.float64)
+    lo, hi = coords.reshape(-1, 3).min(0), coords.reshape(-1, 3).max(0)
+    padding = float(rng.choice([0.0, 1.0, 2.0]))
+    spacing = float(rng.choice([0.8, 1.0, 1.25]))
+    vol = float(np.prod(hi - lo + 2 * padding + spacing))
+    if vol / spacing ** 3 > 5000:
+        spacing = float((vol / 5000) ** (1 / 3)) + 0.05
+    dtype = "float64" if rng.random() < 0.25 else "float32"
+    det = {"atoms": n, "conformers": nc, "elements": "".join(els)[:40], "padding": padding, "spacing": round(spacing, 4), "grid_dtype": dtype}
+    grid = make_grid(ctx, case, rng, gb, lo, hi, padding, spacing, dtype, det)
+    if grid is None:
+        return
+    det["grid_points"] = int(grid.shape[0])
+    for bound in (127, 255):
+        if n > bound + 1:
+            ctx.count(f"descriptor.many-atoms.above-{bound + 1}-atoms")
+    st = {"ens": ens, "grid": grid, "geoms": make_geoms(rng, ml, mol, ens)}
+    snapshot(st)
+    _, _, occ_any = field_reference(st["grid0"], st["coords"], st["radii"], None)
+    ctx.case(case, dkey=("L", dhash(st["coords"], grid[:3]), n, spacing, dtype), nontrivial=bool(occ_any.any()) and not bool(occ_any.all()),
+             sample={"part": 3, "large": "atoms", **det, "occupied_points": int(occ_any.sum())})
+    evaluate(ctx, case, rng, gb, st, det, state, "repeat")
+    edits = edit_ensemble(rng, ml, st)
+    _DCACHE.clear()
+    snapshot(st)
+    ctx.count("descriptor.repeat.after-ensemble-edit")
+    evaluate(ctx, case, rng, gb, st, {**det, "edits": edits}, state, "repeat", tags=("after-ensemble-edit",))
+
+
+# ------------------------------------------------------------------------------------------------------ concurrent callers
+
+THREAD_OPS = ["aso", "aso-weighted", "aeif", "aeif-weighted", "atomic_indicator_field", "prune", "nearest_atom_index"]
+
+
+def run_desc_threads(spec, ctx):
+    """T threads, each with its own ensemble (all of one shape) and one shared grid, call the descriptors at the same time --
+    what ThreadPoolExecutor.map(aso, library) does.  Serial results first (judged against the definitions), then every
+    concurrent result must equal the serial result of the same call."""
+    import molli as ml
+    import molli_xt  # noqa: F401
+    from molli.descriptor import gridbased as gb
+
+    case = ["T", spec["threads"]]
+    if not ctx.want(case):
+        return
+    part3_note(ctx, gb)
+    rng = ctx.nprng(*case)
+    T, reps = spec["threads"], spec["reps"]
+    n, nc = int(rng.choice([12, 16, 20])), int(rng.choice([4, 6, 8]))
+    centre = rng.uniform(-5, 5, size=3)
+    jobs = []
+    for t in range(T):
+        base = gen_coords(rng, n)
+        base = base - base.mean(0) + centre + rng.normal(scale=1.0, size=3)
+        mol, ens, els = gen_ensemble(rng, n=n, nc=nc, base=base)
+        jobs.append({"ens": ens, "mol": ml.Molecule(mol), "els": els})
+    allc = np.concatenate([np.array(j["ens"].coords, dtype=np.float64).reshape(-1, 3) for j in jobs])
+    lo, hi = allc.min(0), allc.max(0)
+    spacing = float(max(0.6, (float(np.prod(hi - lo + 3.0)) / 14000) ** (1 / 3)))
+    grid = gb.rectangular_grid(lo, hi, padding=1.5, spacing=spacing)
+    G = grid.shape[0]
+    det = {"threads": T, "atoms": n, "conformers": nc, "grid_points": G, "spacing": round(spacing, 4)}
+    ctx.case(case, dkey=("T", T, reps, n, nc, G), nontrivial=True, sample={"part": 3, "concurrent": True, **det})
+
+    def do(job, op):
+        ens = job["ens"]
+        if op.startswith("aso"):
+            return gb.aso(ens, grid, weighted=op.endswith("weighted"))
+        if op.startswith("aeif"):
+            return gb.aeif(ens, grid, weighted=op.endswith("weighted"))
+        if op == "atomic_indicator_field":
+            return gb.atomic_indicator_field(ens, grid, job["vals"], job["rad"], weighted=True)
+        if op == "prune":
+            return gb.prune(grid, ens, max_dist=1.5, eps=0.25)
+        return gb.nearest_atom_index(grid, ens, max_dist=2.5)
+
+    # ---- serial results, judged against the definitions (different ensembles of one shape on one grid, one after the other)
+    state = {"case": case, "inside": 0, "tags": ()}
+    for t, job in enumerate(jobs):
+        _DCACHE.clear()
+        ens = job["ens"]
+        job["vals"], job["rad"] = rng.uniform(-2, 2, size=(nc, n)), rng.uniform(0.9, 2.6, size=n)
+        st = {"ens": ens, "grid": grid, "geoms": [("Molecule", job["mol"])]}
+        snapshot(st)
+        d1 = {**det, "thread": t, "phase": "serial"}
+        job["serial"] = {}
+        for op in THREAD_OPS:
+            try:
+                res = job["serial"][op] = do(job, op)
+            except Exception as e:  # noqa
+                ctx.violation(f"{op.split('-')[0]}:raises:{type(e).__name__}", case=case, err=repr(e)[:300], **d1)
+                continue
+            inputs_intact(ctx, case, op.split("-")[0], st, d1)
+            weighted = op.endswith("weighted") or op == "atomic_indicator_field"
+            w = st["weights"] if weighted else None
+            if op.startswith("aso"):
+                check_field(ctx, case, "aso", weighted, res, *field_reference(st["grid0"], st["coords"], st["radii"], w), d1)
+            elif op.startswith("aeif"):
+                check_field(ctx, case, "aeif", weighted, res, *field_reference(st["grid0"], st["coords"], st["radii"], w, st["charges"]), d1,
+                            scale=max(1.0, float(np.abs(st["charges"]).max())))
+            elif op == "atomic_indicator_field":
+                check_field(ctx, case, op, True, res, *field_reference(st["grid0"], st["coords"], job["rad"], w, job["vals"]), d1, scale=2.0)
+            elif op == "prune":
+                check_prune(ctx, case, st["grid0"], st["coords"].reshape(-1, 3), res, 1.5, 0.25, {**d1, "target": "ensemble"})
+            else:
+                check_nearest(ctx, case, "ensemble", st["grid0"], list(st["coords"]), res, 2.5, d1)
+        job["st"] = st
+    _DCACHE.clear()
+
+    # ---- concurrent calls
+    barrier = threading.Barrier(T)
+    bad = [[] for _ in range(T)]
+    errors = [[] for _ in range(T)]
+    calls = [0] * T
+
+    def compare(t, op, res, phase):
+        want = jobs[t]["serial"].get(op)
+        if want is None:
+            return
+        res = np.asarray(res)
+        calls[t] += 1
+        if res.shape != want.shape:
+            bad[t].append((op, phase, -1))
+        elif res.dtype.kind == "f":
+            nb = int((~(np.abs(res - want) <= 1e-9)).sum())
+            if nb:
+                bad[t].append((op, phase, nb))
+        elif not np.array_equal(res, want):
+            bad[t].append((op, phase, int((res != want).sum())))
+
+    def work(t):
+        job = jobs[t]
+        try:
+            # phase A: all threads enter the same function together
+            for op in THREAD_OPS:
+                for _ in range(reps):
+                    barrier.wait(timeout=300)
+                    compare(t, op, do(job, op), "same-function-at-once")
+            # phase B: every thread runs through the functions on its own, starting at a different one
+            for _ in range(reps):
+                for k in range(len(THREAD_OPS)):
+                    op = THREAD_OPS[(k + 2 * t) % len(THREAD_OPS)]
+                    compare(t, op, do(job, op), "different-functions")
+        except threading.BrokenBarrierError:
+            errors[t].append(("barrier", "broken"))
+        except Exception as e:  # noqa
+            errors[t].append(("call", f"{type(e).__name__}: {e!r}"[:300]))
+            barrier.abort()
+
+    ths = [threading.Thread(target=work, args=(t,), daemon=True) for t in range(T)]
+    old_switch = sys.getswitchinterval()
+    sys.setswitchinterval(1e-4)
+    try:
+        for th in ths:
+            th.start()
+        for th in ths:
+            th.join(timeout=800)
+    finally:
+        sys.setswitchinterval(old_switch)
+    if any(th.is_alive() for th in ths):
+        raise RuntimeError("concurrent descriptor calls did not finish")
+    ctx.count("descriptor.concurrent.calls", sum(calls))
+    ctx.count("descriptor.concurrent.threads", T)
+    seen = set()
+    for t in range(T):
+        for kind, e in errors[t]:
+            if kind == "call":
+                ctx.violation("descriptor:concurrent-call-raises", case=case, err=e, thread=t, **det)
+        for op, phase, nb in bad[t]:
+            if (op, phase) in seen:
+                continue
+            seen.add((op, phase))
+            ctx.violation(f"{op.split('-')[0]}:concurrent-callers:result-differs-from-serial-call", case=case, op=op, phase=phase,
+                          differing_elements=nb, thread=t, calls_differing_in_this_thread=sum(1 for b in bad[t] if b[0] == op), **det)
+    if any(kind == "barrier" for t in range(T) for kind, _ in errors[t]) and not any(kind == "call" for t in range(T) for kind, _ in errors[t]):
+        raise RuntimeError("barrier broken without a failing call (timeout under load)")
+    for t, job in enumerate(jobs):
+        inputs_intact(ctx, case, "descriptor-concurrent-calls", job["st"], {**det, "thread": t})
